@@ -76,6 +76,14 @@ def module_assigned(tree):
         for h in getattr(s, 'handlers', []) or []:
           rec(h.body)
   rec(tree.body)
+  for c in tree.body:
+    if isinstance(c, ast.ClassDef):
+      for s in c.body:
+        if isinstance(s, ast.Assign):
+          for t in s.targets:
+            if isinstance(t, ast.Name):
+              k = c.name + '.' + t.id
+              out[k] = out.get(k, 0) + 1
   return out
 
 
@@ -94,6 +102,62 @@ def _literal(e):
   return False
 
 
+def _table(e):
+  """an immutable literal whose leaves are constants or plain dotted names
+  (modules, enum members): a lookup table"""
+  if isinstance(e, ast.Constant):
+    return True
+  if isinstance(e, ast.Tuple):
+    return bool(e.elts) and all(_table(x) for x in e.elts)
+  if isinstance(e, ast.Name):
+    return True
+  if isinstance(e, ast.Attribute):
+    return _table(e.value) and not isinstance(e.value, (ast.Constant, ast.Tuple))
+  return _literal(e)
+
+
+def inline_new_class_constants(tree, rel):
+  """A private class attribute the reference tree does not have, bound once in
+  the class body to a literal table and never assigned through self / the class:
+  reads `self.X` / `Class.X` inside the methods of that class become the table."""
+  ka = known_assigns(rel)
+  if ka is None:
+    return 0
+  done = 0
+  for c in tree.body:
+    if not isinstance(c, ast.ClassDef):
+      continue
+    consts = {}
+    for s in c.body:
+      if isinstance(s, ast.Assign) and len(s.targets) == 1 and isinstance(
+          s.targets[0], ast.Name):
+        n = s.targets[0].id
+        if n.startswith('_') and not n.startswith('__') and (c.name + '.' + n) not in ka \
+            and _table(s.value) and isinstance(s.value, ast.Tuple):
+          consts[n] = s.value
+    for n in ast.walk(tree):
+      if isinstance(n, ast.Attribute) and n.attr in consts and not isinstance(n.ctx, ast.Load):
+        consts.pop(n.attr, None)
+    if not consts:
+      continue
+
+    class R(ast.NodeTransformer):
+      def visit_Attribute(self, x):
+        self.generic_visit(x)
+        if x.attr in consts and isinstance(x.ctx, ast.Load) and isinstance(
+            x.value, ast.Name) and x.value.id in ('self', 'cls', c.name):
+          nonlocal done
+          done += 1
+          return ast.copy_location(copy.deepcopy(consts[x.attr]), x)
+        return x
+    for m in c.body:
+      if isinstance(m, ast.FunctionDef):
+        R().visit(m)
+  if done:
+    ast.fix_missing_locations(tree)
+  return done
+
+
 def inline_new_constants(tree, rel):
   """A private module-level name that the reference tree does not have, bound
   once to an immutable literal (a constant, a tuple of constants), is replaced
@@ -109,7 +173,8 @@ def inline_new_constants(tree, rel):
         s.targets[0], ast.Name):
       n = s.targets[0].id
       if n.startswith('_') and not n.startswith('__') and n not in ka and \
-          counts.get(n) == 1 and _literal(s.value):
+          counts.get(n) == 1 and (_literal(s.value) or (
+              isinstance(s.value, ast.Tuple) and _table(s.value))):
         consts[n] = s.value
   if not consts:
     return 0
@@ -214,6 +279,54 @@ def referrers(tree):
   return out
 
 
+def _move_back_methods(tree, cur, gone, new, sh):
+  """A private method of the reference tree that is gone while a new private
+  module-level function has its name, one parameter less (no self) and is called
+  only from methods of that class: "a method that does not use self became a
+  function".  The function is put back as the method and the calls as
+  self.<name>(...).  Returns the number of functions moved."""
+  moved = 0
+  for g in sorted(gone):
+    if '.' not in g:
+      continue
+    cname, mname = g.split('.', 1)
+    if mname not in new or mname not in cur:
+      continue
+    f = cur[mname]
+    if f.decorator_list or arity(f) != sh[g]['arity'] - 1 or any(
+        isinstance(n, ast.Name) and n.id == 'self' for n in ast.walk(f)):
+      continue
+    cls = next((c for c in tree.body if isinstance(c, ast.ClassDef) and c.name == cname),
+               None)
+    if cls is None:
+      continue
+    # every mention of the function is a call inside a method of the class
+    calls_in_cls = set()
+    for m in cls.body:
+      if isinstance(m, ast.FunctionDef) and m.args.args and m.args.args[0].arg == 'self':
+        for n in ast.walk(m):
+          if isinstance(n, ast.Call) and isinstance(n.func, ast.Name) and n.func.id == mname:
+            calls_in_cls.add(id(n.func))
+    mentions = [n for n in ast.walk(tree) if isinstance(n, ast.Name) and n.id == mname]
+    if not mentions or any(id(n) not in calls_in_cls for n in mentions):
+      continue
+    meth = copy.deepcopy(f)
+    meth.args.args.insert(0, ast.arg(arg='self', annotation=None))
+    cls.body.append(meth)
+    tree.body.remove(f)
+    for m in cls.body:
+      if isinstance(m, ast.FunctionDef):
+        for n in ast.walk(m):
+          if isinstance(n, ast.Call) and isinstance(n.func, ast.Name) and \
+              n.func.id == mname and id(n.func) in calls_in_cls:
+            n.func = ast.copy_location(ast.Attribute(
+                value=ast.Name(id='self', ctx=ast.Load()), attr=mname, ctx=ast.Load()),
+                                       n.func)
+    ast.fix_missing_locations(tree)
+    moved += 1
+  return moved
+
+
 def rename_back(tree, rel):
   """A private function of the reference tree that is gone, and a new private
   function in the same scope that is the same function under another name
@@ -231,6 +344,13 @@ def rename_back(tree, rel):
          and not q.split('.')[-1].startswith('__')]
   if not gone or not new:
     return {}
+  moved = _move_back_methods(tree, cur, gone, new, sh)
+  if moved:
+    cur = scoped_functions(tree)
+    gone = [g for g in gone if g not in cur]
+    new = [q for q in new if q in cur]
+    if not gone or not new:
+      return {}
   refs = referrers(tree)
   idents = set(refs)
   for n in ast.walk(tree):
@@ -1029,6 +1149,7 @@ def apply(tree, rel):
   modified in place)."""
   rename_back(tree, rel)
   inline_new_constants(tree, rel)
+  inline_new_class_constants(tree, rel)
   n = _apply_helpers(tree, rel)
   import os
   for _round in range(2):
@@ -1056,7 +1177,58 @@ class _Idioms(ast.NodeTransformer):
     self._fns.pop()
     return n
 
+  def visit_If(self, n):
+    self.generic_visit(n)
+    if isinstance(n.test, ast.Constant):
+      keep = n.body if n.test.value else n.orelse
+      return keep or [ast.copy_location(ast.Pass(), n)]
+    return n
+
+  def visit_Compare(self, n):
+    self.generic_visit(n)
+    # None is None / None is not None (after a table row was substituted)
+    if len(n.ops) == 1 and isinstance(n.ops[0], (ast.Is, ast.IsNot)) and isinstance(
+        n.left, ast.Constant) and isinstance(n.comparators[0], ast.Constant) and \
+        n.left.value is None and n.comparators[0].value is None:
+      return ast.copy_location(ast.Constant(isinstance(n.ops[0], ast.Is)), n)
+    return n
+
+  def visit_UnaryOp(self, n):
+    self.generic_visit(n)
+    if isinstance(n.op, ast.Not) and isinstance(n.operand, ast.Constant) and isinstance(
+        n.operand.value, bool):
+      return ast.copy_location(ast.Constant(not n.operand.value), n)
+    return n
+
+  def visit_BoolOp(self, n):
+    self.generic_visit(n)
+    is_and = isinstance(n.op, ast.And)
+    vals = []
+    for v in n.values:
+      if isinstance(v, ast.Constant) and isinstance(v.value, bool):
+        if v.value != is_and:
+          # absorbing element: decides the result if nothing before it can
+          vals.append(v)
+          break
+        continue          # neutral element
+      vals.append(v)
+    if not vals:
+      return ast.copy_location(ast.Constant(is_and), n)
+    if len(vals) == 1:
+      return vals[0]
+    n.values = vals
+    return n
+
   def visit_For(self, n):
+    # `if c: continue` as first statement of a loop body  ==  `if not c: <rest>`
+    if n.body and isinstance(n.body[0], ast.If) and not n.body[0].orelse and \
+        len(n.body[0].body) == 1 and isinstance(n.body[0].body[0], ast.Continue) and \
+        not any(isinstance(x, (ast.Continue, ast.Break)) for st in n.body[1:]
+                for x in _walk_same_loop(st)):
+      rest = n.body[1:] or [ast.copy_location(ast.Pass(), n)]
+      g = ast.If(test=ast.UnaryOp(op=ast.Not(), operand=n.body[0].test), body=rest,
+                 orelse=[])
+      n.body = [ast.fix_missing_locations(ast.copy_location(g, n.body[0]))]
     # for v in ('a', 'b'): BODY  ==  BODY[v:='a']; BODY[v:='b']   (constants
     # only, no break/continue/else, v not rebound, v not used afterwards is not
     # required: the unrolled form assigns nothing, so a later read of v is kept
@@ -1075,7 +1247,7 @@ class _Idioms(ast.NodeTransformer):
         isinstance(t, ast.Name) for t in n.target.elts):
       tnames = [t.id for t in n.target.elts]
     rows = None
-    if tnames and isinstance(n.iter, (ast.Tuple, ast.List)) and 0 < len(n.iter.elts) <= 8:
+    if tnames and isinstance(n.iter, (ast.Tuple, ast.List)) and 0 < len(n.iter.elts) <= 16:
       if len(tnames) == 1:
         rows = [[e] for e in n.iter.elts]
       elif all(isinstance(e, (ast.Tuple, ast.List)) and len(e.elts) == len(tnames)
@@ -1388,13 +1560,17 @@ def propagate_aliases(fn):
                                             or (isinstance(st.value, ast.Tuple) and st.value.elts
                                                 and all(isinstance(x, (ast.Attribute, ast.Subscript))
                                                         and _pure_chain(x, roots)
-                                                        for x in st.value.elts))):
+                                                        for x in st.value.elts))
+                                            or (isinstance(st.value, ast.Tuple) and _table(st.value)
+                                                and not any(isinstance(x, ast.Name) and stores.get(x.id)
+                                                            for x in ast.walk(st.value)))):
       name = st.targets[0].id
       # the chain must not be written through between definition and uses:
       # accept only if no statement of the function assigns an attribute /
       # subscript whose text equals a prefix of the chain
       chains = [ast.unparse(x) for x in (
-          st.value.elts if isinstance(st.value, ast.Tuple) else [st.value])]
+          st.value.elts if isinstance(st.value, ast.Tuple) else [st.value])
+                if isinstance(x, (ast.Attribute, ast.Subscript))]
       clobber = False
       for n in ast.walk(fn):
         if isinstance(n, (ast.Attribute, ast.Subscript)) and isinstance(
